@@ -15,27 +15,29 @@
 EXTENDS PerFileGraph, SequencesExt
 
 GhostId == 9                      \* the only ghost of a bounded universe (GhostDags(n, k, {GhostId}))
-Files == {"a", "b"}               \* file ids; the root directory is implicit
+Files == {"a", "b", "l"}          \* file ids: a and b are files, l is a SYMBOLIC LINK; the root directory is implicit
 Set(q) == {q[i] : i \in DOMAIN q}
 
 (* ---- revision trees.  An entry is [alt, content]: the file is called f (alt = FALSE) or fx (alt = TRUE) and holds the
-   bytes written by revision `content`.  A revision without a present left-hand parent (a root, or a revision whose
+   bytes written by revision `content` (for the symbolic link l: it points to the target chosen by revision `content`).  A revision without a present left-hand parent (a root, or a revision whose
    left-hand parent is a ghost) starts from nothing and adds every file; any other revision edits its left-hand parent's
    tree file by file according to an edit PATTERN - a fixed function of (revision number, merge or not), so that a
    history is determined by (P, pat) and the harness can build exactly the same trees:
-       keep  - unchanged      mod - new content (re-adds a deleted file)      ren - renamed, same content
+       keep  - unchanged      mod - new content / link target (re-adds a deleted entry)      ren - renamed, same content
        del   - removed        other - the entry of the second parent (what a merge that takes OTHER commits) *)
 Ent(alt, c) == [alt |-> alt, content |-> c]
 PresentParents(P, r) == SelectSeq(P[r], LAMBDA p : p \in DOMAIN P)
 IsMergeRev(P, r) == Len(PresentParents(P, r)) > 1
 EditOf(pat, P, r, f) ==
     CASE pat = 1 -> IF f = "a" THEN "mod" ELSE "keep"
-      [] pat = 2 -> IF IsMergeRev(P, r) THEN (IF f = "a" THEN "other" ELSE "keep")
-                    ELSE IF (r % 2 = 1) = (f = "a") THEN "mod" ELSE "keep"
+      [] pat = 2 -> IF IsMergeRev(P, r) THEN (IF f = "b" THEN "keep" ELSE "other")
+                    ELSE IF r % 2 = 1 THEN (IF f = "a" THEN "mod" ELSE "keep")
+                    ELSE (IF f = "a" THEN "keep" ELSE "mod")              \* b rewritten, l retargeted
       [] pat = 3 -> IF r % 3 = 0 THEN (IF f = "a" THEN "ren" ELSE "keep")
-                    ELSE IF r % 3 = 1 THEN (IF f = "b" THEN "mod" ELSE "keep")
+                    ELSE IF r % 3 = 1 THEN (IF f = "b" THEN "mod" ELSE IF f = "l" THEN "ren" ELSE "keep")
                     ELSE "keep"                                       \* a revision that changes nothing
       [] pat = 4 -> IF f = "b" THEN (IF r % 4 = 2 THEN "del" ELSE IF r % 4 = 0 THEN "mod" ELSE "keep")
+                    ELSE IF f = "l" THEN (IF r % 4 = 3 THEN "del" ELSE IF r % 4 = 1 THEN "mod" ELSE "keep")
                     ELSE IF IsMergeRev(P, r) THEN "mod" ELSE "keep"
 Patterns == 1..4
 TreeAt(P, T, r, pat) ==
@@ -55,14 +57,15 @@ TreeAt(P, T, r, pat) ==
 Extend(h, ps, tree) ==
     Let(StepFor(h.T, h.fv, h.fp, SelectSeq(ps, LAMBDA p : p \in DOMAIN h.P), tree, Len(h.P) + 1), LAMBDA s :
         [P |-> Append(h.P, ps), T |-> Append(h.T, tree), fv |-> Append(h.fv, s.fv), fp |-> Append(h.fp, s.fp)])
-RECURSIVE HistUpTo(_, _, _)
-HistUpTo(P, pat, n) ==
-    IF n = 0 THEN [T |-> <<>>, fv |-> <<>>, fp |-> <<>>]
-    ELSE Let(HistUpTo(P, pat, n - 1), LAMBDA g :
-             Let(TreeAt(P, g.T, n, pat), LAMBDA tree :
-                 Let(StepFor(g.T, g.fv, g.fp, PresentParents(P, n), tree, n), LAMBDA s :
-                     [T |-> Append(g.T, tree), fv |-> Append(g.fv, s.fv), fp |-> Append(g.fp, s.fp)])))
-History(P, pat) == Let(HistUpTo(P, pat, Len(P)), LAMBDA g : [P |-> P, T |-> g.T, fv |-> g.fv, fp |-> g.fp])
+\* the whole history of (P, pat), revision by revision (a left fold: TLC evaluates it iteratively, so that a history of
+\* 100+ revisions does not need a deep recursion)
+HistStep(P, pat, g, n) ==
+    Let(TreeAt(P, g.T, n, pat), LAMBDA tree :
+        Let(StepFor(g.T, g.fv, g.fp, PresentParents(P, n), tree, n), LAMBDA s :
+            [T |-> Append(g.T, tree), fv |-> Append(g.fv, s.fv), fp |-> Append(g.fp, s.fp)]))
+History(P, pat) ==
+    Let(FoldLeft(LAMBDA g, n : HistStep(P, pat, g, n), [T |-> <<>>, fv |-> <<>>, fp |-> <<>>], [i \in 1..Len(P) |-> i]),
+        LAMBDA g : [P |-> P, T |-> g.T, fv |-> g.fv, fp |-> g.fp])
 
 TextKeys(h) == UNION {{<<f, r>> : f \in DOMAIN h.fp[r]} : r \in DOMAIN h.fp}
 FileParentKeys(h) == UNION {{<<f, r, h.fp[r][f]>> : f \in DOMAIN h.fp[r]} : r \in DOMAIN h.fp}    \* the per-file graph
@@ -96,7 +99,8 @@ FetchOut(P, s, t, rev) == Join(t, Only(s, AncIn(P, s, rev)))
          check              "ok" or what Repository.check() reported
          names1 names2      digest of pack-names after the fetch / after fetching again; revs2 = trevs after fetching
          again; copied2 = number of revisions the second fetch reported as copied *)
-Anc(c) == Ancestry(c.P, c.rev)                       \* non-ghost ancestors, rev included
+Anc(c) == BFS(c.P, {c.rev}, {})                      \* non-ghost ancestors, rev included (= Ancestry(c.P, c.rev); the
+                                                     \* breadth-first form also copes with histories of 100+ revisions)
 LawCompletes(c, o) == o.outcome = "ok"
 LawTip(c, o) == c.rev \in Set(o.trevs)
 LawAncestors(c, o) == Anc(c) \subseteq Set(o.trevs)
